@@ -17,9 +17,17 @@ fn nodes_from(word: &[f64], start: f64) -> Vec<f64> {
 }
 fn val(pat: usize, node: usize, var: usize) -> f64 {
     match pat {
-        0 => ((node * 7 + var * 3) % 11) as f64 - 5.0,
+        0 => {
+            // zeros of this pattern are stored as -0.0: every access path must hand back the stored bits
+            let x = ((node * 7 + var * 3) % 11) as f64 - 5.0;
+            if x == 0.0 { -0.0 } else { x }
+        }
         _ => (node as f64) * 2.0 - (var as f64) * 3.0 + 1.0,
     }
+}
+
+fn bits_eq(a: f64, b: f64) -> bool {
+    a.to_bits() == b.to_bits()
 }
 
 fn mesh1d_case(nodes: &[f64], nvars: usize, pat: usize, exact: bool, acc: &mut Acc) -> Result<(), String> {
@@ -42,8 +50,8 @@ fn mesh1d_case(nodes: &[f64], nvars: usize, pat: usize, exact: bool, acc: &mut A
     for i in 0..n {
         ensure!(m.coord(i) == nodes[i], "coord({})", i);
         for v in 0..nvars {
-            ensure!(m.get_nodes_vars(i)[v] == val(pat, i, v), "get_nodes_vars({})[{}] = {} expected {}", i, v, m.get_nodes_vars(i)[v], val(pat, i, v));
-            ensure!(m[i][v] == val(pat, i, v), "index [{}][{}]", i, v);
+            ensure!(bits_eq(m.get_nodes_vars(i)[v], val(pat, i, v)), "get_nodes_vars({})[{}] = {} expected {}", i, v, m.get_nodes_vars(i)[v], val(pat, i, v));
+            ensure!(bits_eq(m[i][v], val(pat, i, v)), "index [{}][{}]", i, v);
         }
     }
     ensure!(m.nodes().vec == nodes, "nodes()");
@@ -117,7 +125,7 @@ fn mesh2d_case(xn: &[f64], yn: &[f64], nvars: usize, pat: usize, exact: bool) ->
     let (nx, ny) = (xn.len(), yn.len());
     let mut m = Mesh2D::<f64>::new(Vector::create(xn.to_vec()), Vector::create(yn.to_vec()), nvars);
     ensure!(m.nnodes() == (nx, ny) && m.nvars() == nvars, "nnodes/nvars");
-    let v2 = |i: usize, j: usize, v: usize| val(pat, i * 13 + j * 5, v) + (i as f64) * 100.0;
+    let v2 = |i: usize, j: usize, v: usize| if i == 0 { val(pat, j * 5, v) } else { val(pat, i * 13 + j * 5, v) + (i as f64) * 100.0 };
     for i in 0..nx {
         for j in 0..ny {
             if (i + j) % 2 == 0 {
@@ -133,8 +141,8 @@ fn mesh2d_case(xn: &[f64], yn: &[f64], nvars: usize, pat: usize, exact: bool) ->
         for j in 0..ny {
             ensure!(m.coord(i, j) == (xn[i], yn[j]), "coord({},{})", i, j);
             for v in 0..nvars {
-                ensure!(m.get_nodes_vars(i, j)[v] == v2(i, j, v), "get_nodes_vars({},{})[{}] = {} expected {}", i, j, v, m.get_nodes_vars(i, j)[v], v2(i, j, v));
-                ensure!(m[(i, j)][v] == v2(i, j, v), "index ({},{})[{}]", i, j, v);
+                ensure!(bits_eq(m.get_nodes_vars(i, j)[v], v2(i, j, v)), "get_nodes_vars({},{})[{}] = {} expected {}", i, j, v, m.get_nodes_vars(i, j)[v], v2(i, j, v));
+                ensure!(bits_eq(m[(i, j)][v], v2(i, j, v)), "index ({},{})[{}]", i, j, v);
             }
         }
     }
@@ -145,7 +153,7 @@ fn mesh2d_case(xn: &[f64], yn: &[f64], nvars: usize, pat: usize, exact: bool) ->
         ensure!(s.nnodes() == ny && s.nodes().vec == yn, "cross_section_xnode({}) nodes", i);
         for j in 0..ny {
             for v in 0..nvars {
-                ensure!(s[j][v] == v2(i, j, v), "cross_section_xnode({})[{}][{}] = {} expected {}", i, j, v, s[j][v], v2(i, j, v));
+                ensure!(bits_eq(s[j][v], v2(i, j, v)), "cross_section_xnode({})[{}][{}] = {} expected {}", i, j, v, s[j][v], v2(i, j, v));
             }
         }
     }
@@ -154,7 +162,7 @@ fn mesh2d_case(xn: &[f64], yn: &[f64], nvars: usize, pat: usize, exact: bool) ->
         ensure!(s.nnodes() == nx && s.nodes().vec == xn, "cross_section_ynode({}) nodes", j);
         for i in 0..nx {
             for v in 0..nvars {
-                ensure!(s[i][v] == v2(i, j, v), "cross_section_ynode({})[{}][{}] = {} expected {}", j, i, v, s[i][v], v2(i, j, v));
+                ensure!(bits_eq(s[i][v], v2(i, j, v)), "cross_section_ynode({})[{}][{}] = {} expected {}", j, i, v, s[i][v], v2(i, j, v));
             }
         }
     }
@@ -163,7 +171,7 @@ fn mesh2d_case(xn: &[f64], yn: &[f64], nvars: usize, pat: usize, exact: bool) ->
         ensure!(a.rows() == nx && a.cols() == ny, "var_as_matrix shape {}x{}", a.rows(), a.cols());
         for i in 0..nx {
             for j in 0..ny {
-                ensure!(a[(i, j)] == v2(i, j, v), "var_as_matrix({})[{},{}]", v, i, j);
+                ensure!(bits_eq(a[(i, j)], v2(i, j, v)), "var_as_matrix({})[{},{}] = {:?} but {:?} was stored", v, i, j, a[(i, j)], v2(i, j, v));
             }
         }
     }
